@@ -126,13 +126,13 @@ def check(world, tier):
                      sample={"assert": o.detail, "in": short(o.body), "proven": o.proven})
     # ---- c
     from . import C08, C02
-    r8 = C08.check(world, tier)
+    r8 = run_rule(C08, world, tier)
     for cl in r8.clauses:
         if cl.id == "C08.d":
             for f in cl.findings:
                 c.ob(False, "via " + f.key, f.msg, f.site)
             c.ob(not cl.findings, "acceptance-guard (C08.d)", "", sample={"C08.d obligations": cl.obligations, "discharged": cl.discharged})
-    r2 = C02.check(world, tier)
+    r2 = run_rule(C02, world, tier)
     for cl in r2.clauses:
         if cl.id == "C02.a":
             for f in cl.findings:
@@ -141,4 +141,8 @@ def check(world, tier):
     # the wire decoder accepts every block number (0 after the wrap)
     from . import C11
     import_clause(world, tier, a, C11, "C11.c", ("block-number-",), "decoder accepts every 16-bit block number")
+    from . import C01, C09
+    import_clause(world, tier, a, C01, "C01.b", ("burst", "data-payload"), "burst numbering is modular")
+    import_clause(world, tier, a, C09, "C09.c", ("windowsize",), "window size used = acknowledged")
+    import_clause(world, tier, a, C09, "C09.d", ("indowsize",), "window size range")
     return rep
